@@ -86,7 +86,54 @@ def run_case(case, rec, cid):
             whole = float(p.second_of_minute).is_integer() and p._second_of_minute is not None
             if whole and (complete or p < hi):
                 _q(rec, cid, "first_after", p, lambda p=p: r.get_first_after(p))
+    if case.get("win") and desc.get("via") != "parse":
+        _window(rec, cid, desc, r, pts, complete, forward, rnd)
     return True
+
+
+def _window(rec, cid, desc, r, pts, complete, forward, rnd):
+    """Beyond C13's quantifier: the same recurrence with a min_point / max_point window (constructor keywords)."""
+    from harness.common import TimeRecurrence
+    lo_first = rnd.random() < 0.5
+    a, b = sorted(rnd.sample(range(len(pts)), 2)) if len(pts) >= 2 else (0, 0)
+    if not forward:
+        a, b = b, a          # pts run backwards in time
+    shift = lambda p: p + Duration(seconds=rnd.choice([0, 0, 1, -1, 3600]))
+    mn = shift(pts[a]) if rnd.random() < 0.7 else None
+    mx = shift(pts[b]) if (rnd.random() < 0.7 or mn is None) else None
+    if lo_first and mn is not None and rnd.random() < 0.4:
+        mn = shift((pts[0] if forward else pts[-1]) - Duration(days=1))      # a window that opens before the series
+    kw = dict(repetitions=r.repetitions, start_point=r.start_point if desc["fmt"] != 4 else None,
+              duration=r.duration if desc["fmt"] != 1 else None,
+              end_point=(r.end_point if desc["fmt"] == 4 else (mk_second(desc) if desc["fmt"] == 1 else None)),
+              min_point=mn, max_point=mx)
+    limit = len(pts) + 2
+
+    def go():
+        r2 = TimeRecurrence(**kw)
+        out, wcomplete = [], True
+        for q in r2:
+            out.append(q)
+            if len(out) >= limit:
+                wcomplete = False
+                break
+        valid = [bool(r2.get_is_valid(p)) for p in pts]
+        items = [r2[j] for j in range(len(out))]
+        return out, wcomplete, valid, items
+    st, v = outcome(go)
+    base = dict(base=[proj_tp(p) for p in pts], complete=bool(complete), forward=bool(forward), hasMin=mn is not None, min=proj_tp(mn),
+                hasMax=mx is not None, max=proj_tp(mx))
+    if st == "err":
+        rec.ev("Window", cid, ok=False, cls=type(v).__name__, pts=[], wcomplete=True, valid=[], items=[], **base)
+    else:
+        out, wcomplete, valid, items = v
+        rec.ev("Window", cid, ok=True, cls="", pts=[proj_tp(p) for p in out], wcomplete=wcomplete, valid=valid,
+               items=[proj_tp(p) for p in items], **base)
+
+
+def mk_second(desc):
+    from harness.common import mk_tp
+    return mk_tp(desc["s"])
 
 
 def classify(case, rej, events):
@@ -106,7 +153,7 @@ def expand(job):
         if rnd.random() < 0.2 and desc["fmt"] == 3 and desc["a"]["prec"] == "hms" and recur.is_exact(desc["d"]) \
                 and not any(desc["d"].get(k_) for k_ in ("mi", "s")) and any(desc["d"].values()):
             desc["a"] = dict(desc["a"], dec=rnd.choice(["5", "75", "25"]))      # dyadic fraction: float arithmetic stays exact
-        yield {"mode": sp, "rec": desc, "seed": rnd.randrange(10 ** 9)}
+        yield {"mode": sp, "rec": desc, "seed": rnd.randrange(10 ** 9), "win": rnd.random() < 0.5}
 
 
 def jobs(tier, seed):
